@@ -546,8 +546,9 @@ func rulePartialOps(c *Ctx, rule string) {
 			continue
 		}
 		_ = name
-		if s.param != nil && s.fn.Parent() == nil {
-			r := req{s.fn, s.param}
+		if s.param != nil && (s.fn.Parent() == nil || paramOnlyCell(s.recv, s.param) && s.param.Parent().Parent() == nil && s.param.Parent() != s.fn) {
+			// (in a closure of a helper, on the helper's own parameter: the helper's callers answer for it)
+			r := req{s.param.Parent(), s.param}
 			forbidden[r] |= s.got &^ s.allowed
 			why[r] = fmt.Sprintf("%s at %s", s.op, c.pos(s.call))
 			continue
@@ -615,6 +616,25 @@ func rulePartialOps(c *Ctx, rule string) {
 	c.R.Info["partial_reflect_sites"] = total
 	c.R.Floor(rule, "partial reflect operations examined", total, 120)
 	c.R.OK(rule, "guarded-in-place", "", fmt.Sprintf("%d of %d partial reflect operations are dominated by kind tests implying their precondition", nOK, total))
+}
+
+// paramOnlyCell: recv is a load of the variable of parameter p, which is never assigned anything else.
+func paramOnlyCell(recv ssa.Value, p *ssa.Parameter) bool {
+	ld, ok := recv.(*ssa.UnOp)
+	if !ok || ld.Op != token.MUL {
+		return false
+	}
+	cell := resolveCell(ld.X)
+	if cell == nil {
+		return false
+	}
+	stores := cellStores(cell)
+	for _, sv := range stores {
+		if sv != ssa.Value(p) {
+			return false
+		}
+	}
+	return len(stores) > 0
 }
 
 func describeRecv(v ssa.Value) string {
